@@ -452,6 +452,14 @@ def multi_recipe(draw, cfg: Cfg = Cfg()):
         secs.append(sec)
     rec = {"kind": "multi", "page": draw(page_spec(cfg)), "sections": secs,
            "header_layout": draw(st.sampled_from(["nested", "nested", "flat"]))}
+    if draw(st.integers(0, 9)) < 3:
+        # the same RTFBody object for all sections: only settings that do not depend on the column count
+        common = {k: v for k, v in secs[0]["body"].items() if not isinstance(v, (list, dict)) and k not in ("page_by", "subline_by", "group_by", "new_page")}
+        for sec in secs:
+            sec["body"] = dict(common)
+            if isinstance(sec.get("headers"), list):
+                sec["headers"] = "default"
+        rec["share_body"] = True
     rec.update(draw(components(cfg)))
     return rec
 
